@@ -106,8 +106,8 @@ func sharedBacking(v ssa.Value, callBlock *ssa.BasicBlock) (bool, ssa.Instructio
 		case *ssa.ChangeType:
 			walk(x.X)
 		case *ssa.Call:
-			if b, ok := x.Call.Value.(*ssa.Builtin); ok && b.Name() == "append" && len(x.Call.Args) > 0 {
-				walk(x.Call.Args[0])
+			if b, ok := x.Call.Value.(*ssa.Builtin); ok && b.Name() == "append" && len(core.NormCall(&x.Call).Args) > 0 {
+				walk(core.NormCall(&x.Call).Args[0])
 			}
 		case *ssa.MakeSlice:
 			mb := x.Block()
